@@ -112,6 +112,13 @@ theorem c40_second_put_refused (cfg : Cfg) (fs : FS) (n k1 k2 : Bytes) (hn : Val
   simp only [fsStep, encodeName_eq n hn.1] at he
   rw [he]
 
+/-- a `Put` that fails because the key cannot be marshalled leaves the file system exactly as it was
+(no empty key file that would make `Has` true, `Get` undecodable and a later `Put` impossible) -/
+theorem c40_failed_put_changes_nothing (fs : FS) (name : Bytes) :
+    (fsPutUnmarshalable fs name).1 = fs ∧ (fsPutUnmarshalable fs name).2 ≠ .ok := by
+  unfold fsPutUnmarshalable
+  cases encodeName name <;> simp
+
 /-- before the fix the two implementations disagreed on `Delete` of a missing key; the fixed model
 returns `noSuchKey` from both (regression anchor for the `fix:` commit) -/
 theorem c40_delete_missing_agree (cfg : Cfg) (n : Bytes) (h : ValidName cfg n) :
